@@ -474,3 +474,7 @@ def check(ctx, run):  # noqa: F811
     _check_quick(ctx, run)
     if ctx.tier == "thorough":
         whole_package_scan(ctx, run)
+    # R7: call histories of the derivative's own registries (pfsa/registry.py): what a derivative hands out depends on what is registered
+    # now, not on which reads and writes came before
+    from ..registry import histories_rule
+    histories_rule(ctx, run, "C16.R7")
